@@ -213,24 +213,31 @@ def r3_wildcard_site(repo):
 
 def r4_pool(repo):
     obs = []
-    for q, first in ((TU + ".instantiate_type_constructor", None), (TU + ".instantiate_parameterized_function", "None")):
-        f = repo.fn(q)
-        cs = [c for c in calls_in(f.node) if call_name(c) == "_get_available_types"]
-        ok = len(cs) == 1 and const_value(kwarg(cs[0], "primitives", 3), 1) is False and \
-            src(cs[0].args[1]) == "types" and src(kwarg(cs[0], "only_regular", 2)) == "only_regular"
-        pool_name = None
-        if ok:
-            st = _stmt(cs[0])
-            pool_name = src(st.targets[0]) if isinstance(st, ast.Assign) else None
-            cc = [c for c in calls_in(f.node) if call_name(c) == "_compute_type_variable_assignments"]
-            ok = len(cc) == 1 and pool_name is not None and src(cc[0].args[1]) == pool_name and \
-                cfg_of(f.node).dominates(cfg_of(f.node).node(st), cfg_of(f.node).node(cc[0]))
+    callers = []
+    for fn_ in repo.functions.values():
+        for c in calls_in(fn_.node):
+            if call_name(c) == "_compute_type_variable_assignments" and fn_.qualname != CTVA:
+                callers.append((fn_, c))
+    for f, cc in sorted(callers, key=lambda x: x[0].qualname):
+        g = cfg_of(f.node)
+        pool = cc.args[1] if len(cc.args) > 1 else kwarg(cc, "types")
+        ok, why = False, "pool argument is not a local name"
+        if isinstance(pool, ast.Name):
+            defs = g.defs_reaching(pool.id, cc)
+            ok = len(defs) == 1 and isinstance(defs[0][1], ast.Call) and call_name(defs[0][1]) == "_get_available_types"
+            why = "the pool must have exactly one definition, a call of _get_available_types"
             if ok:
-                defs = cfg_of(f.node).defs_reaching(pool_name, cc[0])
-                ok = len(defs) == 1 and defs[0][1] is cs[0]
-        obs.append(Ob("C08-R4", "%s:pool-from-_get_available_types(primitives=False)" % f.name, _w(f), ok,
-                      "the candidate pool handed to _compute_type_variable_assignments must be exactly "
-                      "_get_available_types(..., types, only_regular, primitives=False)"))
+                ga = defs[0][1]
+                prim = kwarg(ga, "primitives", 3)
+                oreg = kwarg(ga, "only_regular", 2)
+                ok = prim is not None and const_value(prim, 1) is False and oreg is not None and \
+                    (const_value(oreg) is True or src(oreg) == "only_regular")
+                why = ("_get_available_types(..., only_regular=%s, primitives=%s): primitives must be False (boxed pool) and "
+                       "only_regular True" % (src(oreg) if oreg is not None else "default", src(prim) if prim is not None else "default True"))
+        obs.append(Ob("C08-R4", "%s:pool-from-_get_available_types(primitives=False)" % f.name, _w(f, cc), ok,
+                      "the candidate pool handed to _compute_type_variable_assignments: " + why))
+    if len(callers) < 3:
+        raise AnalysisError("callers of _compute_type_variable_assignments: %d" % len(callers), rule="C08-R4")
     f = repo.fn(TU + "._get_available_types")
     loops = [n for n in f.node.body if isinstance(n, ast.For)]
     ok1 = ok2 = ok3 = ok4 = False
@@ -528,6 +535,15 @@ def _v_pecs_swapped(tree):
     d.value = V.parse_expr("(True, False)")
 
 
+def _v_generator_unboxed_pool(tree):
+    f = V.find_def(tree, "Generator._get_matching_class")
+    c = [n for n in ast.walk(f) if V.is_call_named(n, "_get_available_types")]
+    if not c:
+        raise V.SkipVariant("call")
+    c[0].args = c[0].args[:2]
+    c[0].keywords = [ast.keyword(arg="only_regular", value=ast.Constant(value=True))]
+
+
 def _t_rename(tree):
     f = _ctva(tree)
     V.rename_local(f, "a_types", "candidates")
@@ -550,6 +566,7 @@ def variants():
         V.Variant("bound not substituted before find_subtypes", t, _v_unsubstituted_bound, {"C08-R5"}),
         V.Variant("pre-assignment ignored", t, _v_preassignment_ignored, {"C08-R5", "C08-R6"}),
         V.Variant("PECS table swapped for parameters", t, _v_pecs_swapped, {"C08-R7"}),
+        V.Variant("generator's direct caller uses an unboxed pool", "src/generators/generator.py", _v_generator_unboxed_pool, {"C08-R4"}),
         V.Variant("twin: rename locals", t, _t_rename, None, twin=True),
         V.Variant("twin: whole tree reformatted by ast.unparse", None, None, None, twin=True),
     ]
